@@ -10,6 +10,7 @@ package main
 
 import (
 	"fmt"
+	"math"
 	"reflect"
 	"regexp"
 	"sort"
@@ -27,7 +28,12 @@ var c01Vals = []interface{}{
 	[]interface{}{1.0}, []interface{}{2.0}, map[interface{}]interface{}{"a": 1.0},
 	map[interface{}]interface{}{"a": 2.0}, "x1", "", "<nil>", []interface{}{[]interface{}{1.0}},
 	[]interface{}{}, map[interface{}]interface{}{}, false, "[1]",
+	math.NaN(), 0.0, math.Copysign(0, -1), // 20: not equal to itself; 21/22: equal as map keys, different text
 }
+
+const c01NaN, c01PosZero, c01NegZero = 20, 21, 22
+
+var c01NaNCount int
 
 var c01Regex = []string{"^x", "1", `^\[`, "nil", ".*", "^$", "a:1", "^(true|2)$"}
 var c01RegexC []*regexp.Regexp
@@ -38,6 +44,10 @@ func c01Tok(i int) string {
 		return "Z"
 	}
 	cls := i
+	if i == c01NaN { // every occurrence is a class of its own
+		c01NaNCount++
+		return fmt.Sprintf("H%di%d", 1000+c01NaNCount, i)
+	}
 	for j := 0; j < i; j++ {
 		if reflect.DeepEqual(c01Vals[j], v) {
 			cls = j
@@ -73,6 +83,7 @@ type c01Rule struct {
 	name     string
 	kinds    []string
 	scopes   []string
+	scopeNil bool // ScopeMatch == nil (engine level) / `scopematch []` (ECAL level)
 	stateNil bool
 	state    []c01KV
 	prio     int
@@ -83,13 +94,23 @@ type c01Event struct {
 	name  string
 	kind  []string
 	state []c01KV
+	// ECAL level: an event added by a sink (parentEv >= 0: rule parentRule adds it while handling event
+	// parentEv), with its own scope map (ownScope) or, without one, as a child of the running cascade
+	child      bool
+	parentEv   int
+	parentRule int
+	ownScope   bool
+	scope      []c01KV
 }
 
 type c01Case struct {
 	workers  int
-	mode     string // w: AddEventAndWait one by one; a: AddEvent all, then Finish
-	level    string // "": engine API; e: ECAL sinks + addEvent / addEventAndWait (c01ecal.go)
-	order    string // p: processor first (a worker panic kills the process: CRASH); i: index first (a panic is recovered: PANIC)
+	mode     string   // w: AddEventAndWait one by one; a: AddEvent all, then Finish
+	sched    []string // order of AddRule (r<i>), events (e<i>) and Reset (R); empty: all rules, then all events
+	failOn   string   // "": default of the level; "0"/"1": SetFailOnFirstErrorInTriggerSequence
+	failing  []int    // indexes of the rules whose action returns an error / whose sink raises
+	level    string   // "": engine API; e: ECAL sinks + addEvent / addEventAndWait (c01ecal.go)
+	order    string   // p: processor first (a worker panic kills the process: CRASH); i: index first (a panic is recovered: PANIC)
 	rules    []c01Rule
 	scopeNil bool
 	scope    []c01KV // path, "0"/"1"
@@ -113,7 +134,11 @@ func c01KVs(kvs []c01KV) string {
 	}
 	ys := make([]string, len(kvs))
 	for i, kv := range kvs {
-		ys[i] = hx(kv.key) + ":" + kv.tok
+		if strings.HasPrefix(kv.key, "!") { // a non-string key (ECAL level): `!` + hex of its text
+			ys[i] = "!" + hx(kv.key[1:]) + ":" + kv.tok
+		} else {
+			ys[i] = hx(kv.key) + ":" + kv.tok
+		}
 	}
 	return strings.Join(ys, ",")
 }
@@ -139,12 +164,33 @@ func (c *c01Case) encode() string {
 				}
 			}
 		}
-		rs = append(rs, strings.Join([]string{hx(r.name), c01List(r.kinds), c01List(r.scopes), st,
+		scs := c01List(r.scopes)
+		if r.scopeNil {
+			scs = "N"
+		}
+		rs = append(rs, strings.Join([]string{hx(r.name), c01List(r.kinds), scs, st,
 			strconv.Itoa(r.prio), c01List(r.supp)}, ";"))
 	}
 	valToks := map[string]string{}
-	for _, e := range c.events {
-		es = append(es, strings.Join([]string{hx(e.name), c01List(e.kind), c01KVs(e.state)}, ";"))
+	for ei := range c.events {
+		if len(rxIDs) > 0 {
+			// the text of a value must be a function of its class where a regex looks at it: -0 becomes +0
+			for k, kv := range c.events[ei].state {
+				if strings.HasSuffix(kv.tok, fmt.Sprintf("i%d", c01NegZero)) {
+					c.events[ei].state[k].tok = c01Tok(c01PosZero)
+				}
+			}
+		}
+		e := c.events[ei]
+		fields := []string{hx(e.name), c01List(e.kind), c01KVs(e.state)}
+		if e.child {
+			sc, par := "-", fmt.Sprintf("%d.%d", e.parentEv, e.parentRule)
+			if e.ownScope {
+				sc = c01KVs(e.scope)
+			}
+			fields = append(fields, sc, par)
+		}
+		es = append(es, strings.Join(fields, ";"))
 		for _, kv := range e.state {
 			valToks[c01ClassTok(kv.tok)] = kv.tok
 		}
@@ -184,6 +230,19 @@ func (c *c01Case) encode() string {
 	if c.level != "" {
 		lv = "l=" + c.level + " "
 	}
+	if len(c.sched) > 0 {
+		lv += "z=" + strings.Join(c.sched, ",") + " "
+	}
+	if c.failOn != "" {
+		lv += "f=" + c.failOn + " "
+	}
+	if len(c.failing) > 0 {
+		var fi []string
+		for _, i := range c.failing {
+			fi = append(fi, strconv.Itoa(i))
+		}
+		lv += "g=" + strings.Join(fi, ",") + " "
+	}
 	return fmt.Sprintf("%sw=%d m=%s o=%s r=%s s=%s e=%s x=%s", lv, c.workers, c.mode, c.order, j(rs, "|"), sc, j(es, "|"), j(tab, ","))
 }
 
@@ -205,7 +264,11 @@ func c01UnKVs(s string) []c01KV {
 	var out []c01KV
 	for _, x := range strings.Split(s, ",") {
 		p := strings.SplitN(x, ":", 2)
-		out = append(out, c01KV{unhx(p[0]), p[1]})
+		if strings.HasPrefix(p[0], "!") {
+			out = append(out, c01KV{"!" + unhx(p[0][1:]), p[1]})
+		} else {
+			out = append(out, c01KV{unhx(p[0]), p[1]})
+		}
 	}
 	return out
 }
@@ -224,13 +287,27 @@ func c01Decode(payload string) *c01Case {
 			c.order = v
 		case "l":
 			c.level = v
+		case "z":
+			c.sched = strings.Split(v, ",")
+		case "f":
+			c.failOn = v
+		case "g":
+			for _, x := range strings.Split(v, ",") {
+				n, _ := strconv.Atoi(x)
+				c.failing = append(c.failing, n)
+			}
 		case "r":
 			if v == "_" {
 				break
 			}
 			for _, rs := range strings.Split(v, "|") {
 				p := strings.Split(rs, ";")
-				r := c01Rule{name: unhx(p[0]), kinds: c01UnList(p[1]), scopes: c01UnList(p[2]), supp: c01UnList(p[5])}
+				r := c01Rule{name: unhx(p[0]), kinds: c01UnList(p[1]), supp: c01UnList(p[5])}
+				if p[2] == "N" {
+					r.scopeNil = true
+				} else {
+					r.scopes = c01UnList(p[2])
+				}
 				if p[3] == "N" {
 					r.stateNil = true
 				} else {
@@ -251,7 +328,16 @@ func c01Decode(payload string) *c01Case {
 			}
 			for _, es := range strings.Split(v, "|") {
 				p := strings.Split(es, ";")
-				c.events = append(c.events, c01Event{unhx(p[0]), c01UnList(p[1]), c01UnKVs(p[2])})
+				e := c01Event{name: unhx(p[0]), kind: c01UnList(p[1]), state: c01UnKVs(p[2])}
+				if len(p) == 5 {
+					e.child = true
+					if p[3] != "-" {
+						e.ownScope = true
+						e.scope = c01UnKVs(p[3])
+					}
+					fmt.Sscanf(p[4], "%d.%d", &e.parentEv, &e.parentRule)
+				}
+				c.events = append(c.events, e)
 			}
 		}
 	}
@@ -276,6 +362,9 @@ func (r *c01Rule) build(action engine.RuleAction) *engine.Rule {
 	if len(r.kinds) == 0 {
 		er.KindMatch = nil
 	}
+	if r.scopeNil {
+		er.ScopeMatch = nil
+	}
 	if !r.stateNil {
 		er.StateMatch = map[string]interface{}{}
 		for _, kv := range r.state {
@@ -294,30 +383,68 @@ func (e *c01Event) build() *engine.Event {
 	return engine.NewEvent(e.name, kind, st)
 }
 
+// c01SetNames renders a multiset of names as a sorted set.
+func c01SetNames(xs []string) string {
+	seen := map[string]bool{}
+	var ys []string
+	for _, x := range xs {
+		if !seen[x] {
+			seen[x] = true
+			ys = append(ys, x)
+		}
+	}
+	return c01Names(ys)
+}
+
+// schedule of a case: explicit or "all rules, then all events"
+func (c *c01Case) ops() []string {
+	if len(c.sched) > 0 {
+		return c.sched
+	}
+	var ops []string
+	for i := range c.rules {
+		ops = append(ops, fmt.Sprintf("r%d", i))
+	}
+	for i := range c.events {
+		ops = append(ops, fmt.Sprintf("e%d", i))
+	}
+	return ops
+}
+
 func c01Run(payload string) string {
 	c := c01Decode(payload)
 	if c.level == "e" {
 		return c01RunECAL(c)
 	}
-	// the index alone
+	ops := c.ops()
+	failing := map[int]bool{}
+	for _, i := range c.failing {
+		failing[i] = true
+	}
+	// the index alone, following the same schedule
 	type idxRes struct{ t, m string }
-	var ires []idxRes
+	ires := make([]idxRes, len(c.events))
 	runIndex := func() {
 		idx := engine.NewRuleIndex()
-		for i := range c.rules {
-			idx.AddRule(c.rules[i].build(nil))
-		}
-		for i := range c.events {
-			ev := c.events[i].build()
-			t := "0"
-			if idx.IsTriggering(ev) {
-				t = "1"
+		for _, op := range ops {
+			n, _ := strconv.Atoi(op[1:])
+			switch op[0] {
+			case 'R':
+				idx = engine.NewRuleIndex()
+			case 'r':
+				idx.AddRule(c.rules[n].build(nil))
+			case 'e':
+				ev := c.events[n].build()
+				t := "0"
+				if idx.IsTriggering(ev) {
+					t = "1"
+				}
+				var mn []string
+				for _, r := range idx.Match(ev) {
+					mn = append(mn, r.Name)
+				}
+				ires[n] = idxRes{t, c01SetNames(mn)}
 			}
-			var mn []string
-			for _, r := range idx.Match(ev) {
-				mn = append(mn, r.Name)
-			}
-			ires = append(ires, idxRes{t, c01Names(mn)})
 		}
 	}
 	if c.order != "p" {
@@ -327,7 +454,7 @@ func c01Run(payload string) string {
 	// the real processor; a stalled attempt is repeated once with a fresh processor so that only
 	// a reproducible hang is reported (an intermittent stall of the pool is C09's subject, it is counted)
 	type procRes struct {
-		errs  string
+		errs  []byte
 		added []bool
 		x     []string
 		fail  string
@@ -336,23 +463,10 @@ func c01Run(payload string) string {
 		var mu sync.Mutex
 		rec := map[*engine.Event][]string{}
 		proc := engine.NewProcessor(c.workers)
-		errs := ""
-		for i := range c.rules {
-			name := c.rules[i].name
-			err := proc.AddRule(c.rules[i].build(func(p engine.Processor, m engine.Monitor, e *engine.Event, tid uint64) error {
-				mu.Lock()
-				rec[e] = append(rec[e], name)
-				mu.Unlock()
-				return nil
-			}))
-			if err != nil {
-				errs += "1"
-			} else {
-				errs += "0"
-			}
-		}
-		if errs == "" {
-			errs = "_"
+		proc.SetFailOnFirstErrorInTriggerSequence(c.failOn == "1")
+		errs := make([]byte, len(c.rules))
+		for i := range errs {
+			errs[i] = '0'
 		}
 		newScope := func() *engine.RuleScope {
 			defs := map[string]bool{}
@@ -361,32 +475,63 @@ func c01Run(payload string) string {
 			}
 			return engine.NewRuleScope(defs)
 		}
-		proc.Start()
+		stop := func() {
+			if !proc.Stopped() {
+				proc.Finish()
+			}
+		}
 		evs := make([]*engine.Event, len(c.events))
 		added := make([]bool, len(c.events))
-		for i := range c.events {
-			evs[i] = c.events[i].build()
-			var m engine.Monitor
-			var err error
-			if c.mode == "w" {
-				var rm *engine.RootMonitor
-				if !c.scopeNil {
-					rm = proc.NewRootMonitor(nil, newScope())
+		for _, op := range ops {
+			n, _ := strconv.Atoi(op[1:])
+			switch op[0] {
+			case 'R':
+				stop()
+				if err := proc.Reset(); err != nil {
+					return procRes{fail: "ERR " + oneLine(err.Error())}
 				}
-				m, err = proc.AddEventAndWait(evs[i], rm)
-			} else {
-				var pm engine.Monitor
-				if !c.scopeNil {
-					pm = proc.NewRootMonitor(nil, newScope())
+			case 'r':
+				stop()
+				name, fails := c.rules[n].name, failing[n]
+				err := proc.AddRule(c.rules[n].build(func(p engine.Processor, m engine.Monitor, e *engine.Event, tid uint64) error {
+					mu.Lock()
+					rec[e] = append(rec[e], name)
+					mu.Unlock()
+					if fails {
+						return fmt.Errorf("action of %v fails", name)
+					}
+					return nil
+				}))
+				if err != nil {
+					errs[n] = '1'
 				}
-				m, err = proc.AddEvent(evs[i], pm)
+			case 'e':
+				if proc.Stopped() {
+					proc.Start()
+				}
+				evs[n] = c.events[n].build()
+				var m engine.Monitor
+				var err error
+				if c.mode == "w" {
+					var rm *engine.RootMonitor
+					if !c.scopeNil {
+						rm = proc.NewRootMonitor(nil, newScope())
+					}
+					m, err = proc.AddEventAndWait(evs[n], rm)
+				} else {
+					var pm engine.Monitor
+					if !c.scopeNil {
+						pm = proc.NewRootMonitor(nil, newScope())
+					}
+					m, err = proc.AddEvent(evs[n], pm)
+				}
+				if err != nil {
+					return procRes{fail: "ERR " + oneLine(err.Error())}
+				}
+				added[n] = m != nil && !reflect.ValueOf(m).IsNil()
 			}
-			if err != nil {
-				return procRes{fail: "ERR " + oneLine(err.Error())}
-			}
-			added[i] = m != nil && !reflect.ValueOf(m).IsNil()
 		}
-		proc.Finish()
+		stop()
 
 		xs := make([]string, len(evs))
 		mu.Lock()
@@ -424,19 +569,26 @@ func c01Run(payload string) string {
 	if pres.fail != "" {
 		return pres.fail
 	}
-	errs, added := pres.errs, pres.added
 	if c.order == "p" {
 		runIndex()
 	}
 	var sb strings.Builder
-	sb.WriteString("a=" + errs)
+	if len(pres.errs) == 0 {
+		sb.WriteString("a=_")
+	} else {
+		sb.WriteString("a=" + string(pres.errs))
+	}
 	for i := range c.events {
+		// the property leaves the pre-check answers free for an event that runs no rule
+		if pres.x[i] == "_" {
+			sb.WriteString(" T*/M" + ires[i].m + "/K*/X_")
+			continue
+		}
 		k := "0"
-		if added[i] {
+		if pres.added[i] {
 			k = "1"
 		}
-		x := pres.x[i]
-		sb.WriteString(" T" + ires[i].t + "/M" + ires[i].m + "/K" + k + "/X" + x)
+		sb.WriteString(" T" + ires[i].t + "/M" + ires[i].m + "/K" + k + "/X" + pres.x[i])
 	}
 	return sb.String()
 }
@@ -456,6 +608,9 @@ func c01Gen(g *Gen) {
 	emit := func(c *c01Case, what string) {
 		if c.workers == 0 {
 			c.workers = 1 + n%4
+			if g.Thorough() {
+				c.workers = 1 + n%16
+			}
 		}
 		if c.mode == "" {
 			c.mode = "w"
@@ -489,7 +644,7 @@ func c01Gen(g *Gen) {
 		if kind != "" {
 			k = strings.Split(kind, ".")
 		}
-		return c01Event{name, k, state}
+		return c01Event{name: name, kind: k, state: state}
 	}
 
 	// ---- corpus: the inputs of the repaired defects
@@ -515,6 +670,46 @@ func c01Gen(g *Gen) {
 		events: []c01Event{ev("e", "a", c01St("k", V(8)))}}, "corpus")
 	emit(&c01Case{rules: []c01Rule{mkRule("r", []string{"a"}, c01St("k", V(3)), false), mkRule("q", []string{"a"}, c01St("k", V(4)), false)},
 		scope: globalScope, events: []c01Event{ev("e", "a", c01St("k", V(8))), ev("e", "a", c01St("k", V(10))), ev("e", "a", c01St("k", V(9)))}}, "corpus")
+
+	// ---- rules added between events: Finish, AddRule, Start, AddEvent (the cache must be dropped)
+	rAB, rAs, rB := mkRule("r0", []string{"a.b"}, nil, true), mkRule("r1", []string{"a.*"}, nil, true), mkRule("r2", []string{"b"}, nil, true)
+	rSup := mkRule("r3", []string{"a.b"}, nil, true)
+	rSup.supp = []string{"r0"}
+	for _, mode := range []string{"w", "a"} {
+		emit(&c01Case{mode: mode, rules: []c01Rule{rAB}, scope: globalScope, sched: []string{"e0", "r0", "e1"},
+			events: []c01Event{ev("e", "a.b", nil), ev("e", "a.b", nil)}}, "corpus-rule-after-event")
+		emit(&c01Case{mode: mode, rules: []c01Rule{rAB, rSup, rB}, scope: globalScope, sched: []string{"r0", "e0", "e1", "r1", "e2", "r2", "e3", "e4"},
+			events: []c01Event{ev("e", "a.b", nil), ev("e", "b", nil), ev("e", "a.b", nil), ev("e", "b", nil), ev("f", "a.b", nil)}}, "corpus-rule-after-event")
+		emit(&c01Case{mode: mode, rules: []c01Rule{rAB, rAs}, scope: globalScope, sched: []string{"r0", "e0", "R", "e1", "r1", "e2", "e3"},
+			events: []c01Event{ev("e", "a.b", nil), ev("e", "a.b", nil), ev("e", "a.b", nil), ev("e", "a.c", nil)}}, "corpus-rule-after-event")
+	}
+	// ---- failing actions, both values of failOnFirstError (distinct priorities: which rules run then
+	// depends on the order, which is C10's)
+	for _, ff := range []string{"0", "1"} {
+		for fail := 0; fail < 4; fail++ {
+			var rs []c01Rule
+			for j := 0; j < 4; j++ {
+				r := mkRule(fmt.Sprintf("p%d", j), []string{"a"}, nil, true)
+				r.prio = (j*3 + 1) % 4
+				rs = append(rs, r)
+			}
+			emit(&c01Case{rules: rs, scope: globalScope, failOn: ff, failing: []int{fail, (fail + 2) % 4},
+				events: []c01Event{ev("e", "a", nil), ev("e", "b", nil), ev("e", "a", nil)}}, "corpus-failing-action")
+		}
+	}
+	// ---- a refused rule (nil scope match / no kind match) and a later rule of the same name
+	for _, bad := range []c01Rule{{name: "r", kinds: []string{"a"}, scopeNil: true, stateNil: true}, {name: "r", scopes: []string{}, stateNil: true}} {
+		good := mkRule("r", []string{"a"}, nil, true)
+		other := mkRule("q", []string{"a"}, nil, true)
+		emit(&c01Case{rules: []c01Rule{bad, good, other}, scope: globalScope, events: []c01Event{ev("e", "a", nil)}}, "corpus-refused-rule")
+		emit(&c01Case{rules: []c01Rule{bad, other}, scope: globalScope, events: []c01Event{ev("e", "a", nil)}}, "corpus-refused-rule")
+	}
+	// ---- values whose equality is not reflexive (NaN) or whose text is not a function of the class (-0)
+	for _, vi := range []int{c01NaN, c01PosZero, c01NegZero} {
+		emit(&c01Case{rules: []c01Rule{mkRule("r", []string{"a"}, c01St("k", V(vi)), false), mkRule("q", []string{"a"}, c01St("k", V(c01NegZero)), false),
+			mkRule("x", []string{"a"}, c01St("k", "X1"), false)}, scope: globalScope,
+			events: []c01Event{ev("e", "a", c01St("k", V(c01NaN))), ev("e", "a", c01St("k", V(c01PosZero))), ev("e", "a", c01St("k", V(c01NegZero)))}}, "corpus-nan-zero")
+	}
 
 	// ---- ECAL level (sinks + addEvent with a scope map)
 	c01GenECAL(g, emit)
@@ -789,7 +984,44 @@ func c01Gen(g *Gen) {
 		for j, m := 0, 1+g.R.Intn(6); j < m; j++ {
 			c.events = append(c.events, rndEvent(j, kindsUsed, same))
 		}
-		emit(c, "random-mixed")
+		what := "random-mixed"
+		switch i % 5 {
+		case 1: // rules arrive between the events; kinds are repeated so that cached answers exist
+			what = "random-rule-after-event"
+			ri := 0
+			for j := range c.events {
+				for ri < len(c.rules) && g.R.Intn(3) == 0 {
+					c.sched = append(c.sched, fmt.Sprintf("r%d", ri))
+					ri++
+				}
+				if j > 0 && g.R.Intn(2) == 0 {
+					c.events[j].kind = c.events[g.R.Intn(j)].kind
+				}
+				c.sched = append(c.sched, fmt.Sprintf("e%d", j))
+				if g.R.Intn(12) == 0 {
+					c.sched = append(c.sched, "R")
+				}
+			}
+			for ; ri < len(c.rules); ri++ {
+				c.sched = append(c.sched, fmt.Sprintf("r%d", ri))
+			}
+			// the events once more now that every rule is there
+			k := len(c.events)
+			for j := 0; j < k; j++ {
+				c.events = append(c.events, c.events[j])
+				c.sched = append(c.sched, fmt.Sprintf("e%d", k+j))
+			}
+		case 2: // failing actions
+			what = "random-failing-action"
+			c.failOn = strconv.Itoa(g.R.Intn(2))
+			for j := range c.rules {
+				c.rules[j].prio = j // distinct
+				if g.R.Intn(3) == 0 {
+					c.failing = append(c.failing, j)
+				}
+			}
+		}
+		emit(c, what)
 	}
 	// many state rules on one kind (several leaves), a few values so that many rules match
 	for i := 0; i < nBig; i++ {
@@ -834,5 +1066,13 @@ func init() {
 		},
 		Gen: c01Gen,
 		Run: c01Run,
+		// harness C01 -tool prog <payload>: the ECAL program of an ECAL-level case
+		Tool: func(args []string) int {
+			if len(args) == 2 && args[0] == "prog" {
+				fmt.Print(c01Program(c01Decode(args[1])))
+				return 0
+			}
+			return 2
+		},
 	})
 }
